@@ -169,9 +169,55 @@ REGISTRY = {
             'holds, available alternatives of a logit)',
         ],
     },
+    'C10': {
+        'world': 'draws', 'profile': '', 'faulty': False, 
+        'sessions': {'quick': 12000, 'thorough': 200000},
+        'budget': {'quick': 90, 'thorough': 1500},
+        'rule': 'One case = one seeded session on one Monte-Carlo formula with 1-3 draw variables of different types (all 21 '
+                'native types through recording wrappers, deterministic and random user generators): get_value_c with '
+                'several R, BIOGEME constructions with zero / non-zero seeds, likelihood and simulate on live objects, RNG '
+                'advances, unrelated Monte-Carlo evaluations on the same database with another R between construction and '
+                'use, reconstructions with the same seed, reserved generator names. Distinct = distinct sha256 of (operation '
+                'kinds, number of live objects). Non-trivial = at least 2 draw variables and at least 2 Monte-Carlo values '
+                'matched against recorded series.',
+        'components': {'real': REAL, 'stub': ['recording wrappers around native_random_number_generators entries (pass-through)',
+                                              'user draw generators supplied by the workload']},
+        'assumptions': [
+            'partial: decided are the Monte-Carlo mean, the routing of each named draw variable to its own series, the use of '
+            'exactly what the registered generator produced, reproducibility with a non-zero seed; NOT decided: Integrate '
+            '(quadrature accuracy) and Derive (pure numerics)',
+            'which of the generations recorded during a BIOGEME construction the engine uses is an internal detail: the '
+            'oracle is existential over complete recorded generations and then sticks to the matching one',
+        ],
+    },
+    'C03': {
+        'world': 'names', 'profile': '', 'faulty': False,
+        'sessions': {'quick': 5000, 'thorough': 80000},
+        'budget': {'quick': 90, 'thorough': 1500},
+        'rule': 'One case = one seeded session of by-name operations (likelihood and derivatives at named points, '
+                'change_init_values on the object or on the formula with partial dictionaries, get_value_c with partial '
+                'dictionaries, simulate with dictionaries in seeded key order, estimation, fix_betas, reads of values / '
+                'free names / bounds, a name used for two kinds) executed side by side in two universes: the original '
+                'naming and a seeded bijective renaming (order-reversing in half of the runs, names differing by case) '
+                'with the terms listed in reverse order. Distinct = distinct sha256 of (operation kinds, store after every '
+                'operation). Non-trivial = at least 3 cross-universe comparisons and at least one by-name write.',
+        'components': {'real': REAL, 'stub': ['mp.cpu_count']},
+        'assumptions': [
+            'partial: "all model specifications" is sampled through small ridge-penalised logit / quadratic families',
+            'dictionaries passed to change_init_values on a live object name free parameters only',
+            'estimates are compared at 2e-4 relative, standard errors and t statistics at 5e-3 (optimiser tolerance)',
+        ],
+    },
 }
 
 LEVEL_TEXT = {
+    'C03': 'Partial. Parameter values live in several mutable places; seeded histories of by-name writes and reads are '
+           'checked against a name->value store, and every result is compared between two universes that differ only '
+           'by a bijective renaming and by the order of terms (differential execution of the same session).',
+    'C10': 'Partial. Randomness behind a recording seam: every series a generator produced is recorded, and every '
+           'Monte-Carlo value returned by the engine must equal the mean over the draws of the reference integrand with '
+           'each draw variable replaced by its own recorded series; live objects must be unaffected by unrelated '
+           'regenerations of the shared draw table and reproducible under a non-zero seed. Sampling, not proof.',
     'C12': 'Partial. Faults are planted into running sessions (fault injection at the specification level) and the '
            'recovery of every valid specification is checked afterwards, in-process and after a simulated process '
            'restart; missing-data cells are judged against the reference read-set. Sampling, not proof.',
@@ -206,8 +252,6 @@ LEVEL_TEXT = {
 }
 
 NOT_APPLICABLE = {
-    'C03': 'not yet built in this tree (planned: by-name store histories)',
-    'C10': 'not yet built in this tree (planned: W-eval draws profile)',
     'C02': 'derivatives are a pure function of (formula, row, parameter point): no schedule, clock, fault or history; deciding it is numerical differential testing, not simulation',
     'C05': 'choice probabilities are pure algebra of utilities, availabilities and nest parameters: nothing for a simulator to schedule or fault',
     'C06': 'model-family consistency is pure algebra relating two formulas on the same inputs',
